@@ -8,7 +8,16 @@ Specification side of C18 (system matcher).
   prefix-less shorthand. `render` prints one, `abstract` forgets the decoration, `legal` is
   the documented well-formedness (precedence `not` > `and` > `or`, keywords separated from
   their neighbours by whitespace or a parenthesis, unquoted text free of reserved characters).
-  The set of legal renderings of a tree `t` is `{ lead ++ render c ++ trail | legal c, abstract c = t }`.
+  The set of legal renderings of a tree `t` is
+  `{ lead ++ render c ++ trail | legalTop lead c trail, abstract c = t }`; it is EXACTLY the set of
+  strings the parser accepts with tree `t` (`Vinegar.C18.parse_render` and `Vinegar.C18.parse_sound`).
+* DOCUMENTED-BEHAVIOUR NOTE (`bareKeyword`, `endsKeyword`): the documentation and the grammar comment
+  in `simple_expr.py` treat `and`, `or`, `not` as reserved words. The code recognises a keyword only
+  where whitespace, `(` or the end of the input follows it (`_peek_keyword`), so directly before a
+  closing parenthesis the three words are read as prefix-less id-glob patterns: `(and)` is accepted
+  and matches the system id "and", `(x and not)` is `x and <id "not">`. `legal` admits exactly that
+  family (an unquoted shorthand term spelling a keyword is legal iff the `)` of an enclosing group
+  follows it directly) — it is what the code does, not what the documentation promises.
 * `print`: the printer family (`Style`: minimal or redundant parentheses, tight or padded
   whitespace, the whitespace string, preferred quoting, `/` always, shorthand) — each member
   produces a legal `Cst` of the tree (`Vinegar.C18.legal_print`, `abstract_print`).
@@ -123,29 +132,46 @@ def unquotedOk (isStop : Char → Bool) : Str → Bool
   | [] => false
   | c :: cs => !isQuote c && (c :: cs).all (fun d => !isStop d)
 
+/-- the spelling of one term by itself (whether an unquoted shorthand term that spells a keyword
+    may stand depends on what follows it: `bareKeyword`, `legal`) -/
 def legalAtom (a : AtomSyn) : Bool :=
   (if a.shorthand then a.atom.key.isNone && a.atom.kind == .glob && !a.atom.caseSensitive
    else a.slash || a.atom.caseSensitive) &&
   (match a.atom.key with
    | some k => !k.isEmpty && (a.keyQ != .none || unquotedOk isStopKey k)
    | none => true) &&
-  (a.patQ != .none ||
-    (unquotedOk isStopPattern a.atom.pattern && (!a.shorthand || !keywords.contains a.atom.pattern)))
+  (a.patQ != .none || unquotedOk isStopPattern a.atom.pattern)
 
+/-- an unquoted prefix-less term that spells `and`, `or` or `not` -/
+def bareKeyword (a : AtomSyn) : Bool := a.shorthand && a.patQ == .none && keywords.contains a.atom.pattern
+
+/-- the rendering ends with a bare keyword term -/
+def endsKeyword : Cst → Bool
+  | .atom a => bareKeyword a
+  | .not _ c => endsKeyword c
+  | .paren _ _ _ => false
+  | .and _ _ _ r => endsKeyword r
+  | .or _ _ _ r => endsKeyword r
+
+/-- Well-formed concrete syntax. The last conjunct of the `paren`, `and`, `or` cases (and of
+    `legalTop`) is the documented-behaviour note of the header: a term spelling a keyword without
+    quotes or prefix may stand only directly before the `)` of the enclosing group — before
+    whitespace, an operator or the end of the input the word is the keyword. -/
 def legal : Cst → Bool
   | .atom a => legalAtom a
   | .not ws c => allSpace ws && (!ws.isEmpty || startsParen c) && level c == 3 && legal c
-  | .paren ws1 c ws2 => allSpace ws1 && allSpace ws2 && legal c
+  | .paren ws1 c ws2 => allSpace ws1 && allSpace ws2 && legal c && (ws2.isEmpty || !endsKeyword c)
   | .and l ws1 ws2 r =>
     allSpace ws1 && allSpace ws2 && (!ws1.isEmpty || endsParen l) && (!ws2.isEmpty || startsParen r) &&
-      decide (2 ≤ level l) && level r == 3 && legal l && legal r
+      decide (2 ≤ level l) && level r == 3 && legal l && legal r && !endsKeyword l
   | .or l ws1 ws2 r =>
     allSpace ws1 && allSpace ws2 && (!ws1.isEmpty || endsParen l) && (!ws2.isEmpty || startsParen r) &&
-      decide (2 ≤ level r) && legal l && legal r
+      decide (2 ≤ level r) && legal l && legal r && !endsKeyword l
 
 /-- a whole expression string: optional whitespace around a legal tree -/
 def renderTop (lead : Str) (c : Cst) (trail : Str) : Str := lead ++ (render c ++ trail)
-def legalTop (lead : Str) (c : Cst) (trail : Str) : Bool := allSpace lead && allSpace trail && legal c
+def legalTop (lead : Str) (c : Cst) (trail : Str) : Bool :=
+  allSpace lead && allSpace trail && legal c && !endsKeyword c
 
 /-! ### the printer family -/
 
